@@ -51,6 +51,15 @@ FactoryLaw == kase.kind = "factory" =>
      /\ Compose(Identity(N), Translation(t)) = Translation(t)
      /\ Compose(Translation(t), Scaling(t)) = [i \in 1..N |-> [j \in 1..(N + 1) |-> IF j = N + 1 THEN t[i] ELSE IF i = j THEN t[i] ELSE 0]]
 
+\* general (non-square) matrix products, matrix.hpp:46-62: (R x K) * (K x C), seeded entries
+Shapes == {<<1, 1, 1>>, <<2, 2, 2>>, <<3, 2, 4>>, <<2, 3, 1>>, <<3, 3, 3>>, <<1, 4, 2>>}
+GenMat(r, c, k) == [i \in 1..r |-> [j \in 1..c |-> Entries[(Rnd(k, i, j, r + 7 * c) % Len(Entries)) + 1]]]
+MatCase(sh, k) == [kind |-> "matmul", n |-> 1, shape |-> sh, P |-> GenMat(sh[1], sh[2], k), Q |-> GenMat(sh[2], sh[3], k + 50),
+                   PQ |-> MatMul(GenMat(sh[1], sh[2], k), GenMat(sh[2], sh[3], k + 50))]
+\* (A B) C = A (B C) for the chainable shapes, as a sanity law of the specification's MatMul
+MatAssoc == \A k \in 1..6 : LET A == GenMat(3, 2, k)  B == GenMat(2, 4, k + 9)  C == GenMat(4, 2, k + 19) IN MatMul(MatMul(A, B), C) = MatMul(A, MatMul(B, C))
+ASSUME MatAssoc
+
 \* emission -----------------------------------------------------------------------
 PairCase(N, A, B, v) == [kind |-> "pair", n |-> N, A |-> A, B |-> B, v |-> v, Bv |-> Apply(B, v), Av |-> Apply(A, v),
                          AB |-> Compose(A, B), ABv |-> Apply(A, Apply(B, v))]
@@ -65,5 +74,6 @@ EmitCases == TLCGet("stats").generated >= 0 /\
   ndJsonSerialize(IOEnv.VF_OUT,
      SetToSeq(UNION {{PairCase(N, A, B, v) : A \in Mats(N), B \in Mats(N), v \in Vecs(N)} : N \in 1..4})
      \o SetToSeq({ChainCase(N, k) : N \in 1..4, k \in 1..12})
-     \o SetToSeq(UNION {{FactoryCase(N, t, v) : t \in Vecs(N), v \in Vecs(N)} : N \in 1..4}))
+     \o SetToSeq(UNION {{FactoryCase(N, t, v) : t \in Vecs(N), v \in Vecs(N)} : N \in 1..4})
+     \o SetToSeq({MatCase(sh, k) : sh \in Shapes, k \in 1..8}))
 =============================================================================
